@@ -6,7 +6,7 @@ All statements are about `Model/Reuse.lean` (tied to /repo by harness/c16.cpp vs
 quantify over ALL states / histories, not over reachable samples.  `World.obs` (Spec/Reuse.lean) is what a dump prints
 in its `code|` part; `Sim a b` = `a.obs = b.obs`.
 -/
-import AsmjitVerif.Lemmas.ReuseStep
+import AsmjitVerif.Lemmas.ReuseInv
 namespace AsmjitVerif.Reuse
 
 /-! ### 1. the cleaning functions forget everything (every state, reachable or not) -/
@@ -374,6 +374,120 @@ theorem generate_after_reinit_forgets_history (a b : World) (p : List Op) (ha : 
     simp only [World.reinit, hna, hnb]
     exact hes
 
+/-! ### 5. no side condition: the invariant of all histories -/
+
+/-- a world whose holder is observationally empty and whose emitters are all clean is a fresh world -/
+theorem sim_fresh_of_clean (w : World) (fam : Bool) (hh : w.h.obs = ({} : Holder).obs)
+    (hc : ∀ (i : Nat) (e : Emitter), w.es[i]? = some e → Clean e) (hf : w.es.map proj = (freshOf fam).es.map proj) : Sim w (freshOf fam) := by
+  have hfh : (freshOf fam).h = ({} : Holder) := by cases fam <;> rfl
+  apply sim_of_parts
+  · rw [hh, hfh]
+  · apply List.ext_getElem?
+    intro j
+    rw [List.getElem?_map, List.getElem?_map]
+    have hj := congrArg (fun l => l[j]?) hf
+    simp only [List.getElem?_map] at hj
+    cases hw : w.es[j]? with
+    | none => cases hf' : (freshOf fam).es[j]? <;> simp_all
+    | some e =>
+      cases hf' : (freshOf fam).es[j]? with
+      | none => simp [hw, hf'] at hj
+      | some f =>
+        simp only [hw, hf', Option.map_some, Option.some.injEq, proj, Prod.mk.injEq] at hj
+        have h1 := hc j e hw
+        have h2 : Clean f := (inv_fresh fam).dc j f hf' (by cases fam <;> simp [freshOf, World.fresh, World.freshA64])
+        unfold Clean at h1 h2
+        simp only [Option.map_some]
+        rw [h1, h2, hj.1, hj.2]
+
+/-- **every reachable world resets to a fresh world.** `Inv` (attachment list complete, unattached emitters clean, one
+    emitter family, uninitialised holder empty) holds in every world reached by a history (`inv_run`), and under it
+    `reset(soft|hard)` - also of an uninitialised holder, where it does nothing - gives the world of fresh objects. -/
+theorem reset_of_inv_sim_fresh (w : World) (hard : Bool) (hw : Inv w) :
+    ∃ fam, w.es.map proj = (freshOf fam).es.map proj ∧ Sim (w.reset hard) (freshOf fam) := by
+  have hw' := inv_reset w hard hw
+  have hobs : (w.reset hard).h.obs = ({} : Holder).obs := by
+    cases ha : w.h.arch with
+    | none =>
+      have : w.reset hard = w := by simp [World.reset, ha]
+      rw [this]; exact hw.un ha
+    | some a => exact reset_holder_forgets w hard (by simp [ha])
+  have hatt : (w.reset hard).h.attached = [] := by have := congrArg Holder.attached hobs; exact this
+  have hproj : (w.reset hard).es.map proj = w.es.map proj := by
+    simp only [World.reset]
+    split
+    · rfl
+    · exact applyAll_map_proj proj Emitter.onDetach (fun _ => rfl) _ _
+  obtain ⟨fam, hf⟩ := hw'.fm
+  exact ⟨fam, hproj ▸ hf, sim_fresh_of_clean _ fam hobs (fun i e hi => hw'.dc i e hi (by rw [hatt]; simp)) hf⟩
+
+/-- **generate p after ANY history = generate p on fresh objects.** For every history `h` (any operations, any length;
+    the one-shot setters and `new_jump_annotation` used on attached emitters only - `WFHist`), every reset policy and
+    every program `p`: after `h` and a reset, `p` gives exactly the answers it gives on freshly constructed objects
+    (of the emitter family the world has) and ends in an indistinguishable world. -/
+theorem no_residue_after_any_history (h p : List Op) (hard : Bool) (hwf : WFHist World.fresh h) :
+    ∃ fam, (World.fresh.run h).es.map proj = (freshOf fam).es.map proj ∧
+      ((World.fresh.run h).reset hard).trace p = (freshOf fam).trace p ∧
+      Sim (((World.fresh.run h).reset hard).run p) ((freshOf fam).run p) := by
+  have hinv : Inv (World.fresh.run h) := inv_run h _ (inv_fresh false) hwf
+  obtain ⟨fam, hf, hs⟩ := reset_of_inv_sim_fresh _ hard hinv
+  exact ⟨fam, hf, no_residue p _ _ hs⟩
+
+/-- the side condition is not vacuous and not restrictive for ordinary use: any history without the three setters is
+    well formed … -/
+theorem wfHist_of_no_setters (h : List Op) (hn : ∀ op ∈ h, match op with | .opt .. | .cmt _ | .jann _ => False | _ => True) :
+    ∀ w, WFHist w h := by
+  induction h with
+  | nil => intro w; trivial
+  | cons op r ih =>
+    intro w
+    refine ⟨?_, ih (fun o ho => hn o (by simp [ho])) _⟩
+    have := hn op (by simp)
+    cases op <;> simp_all [Op.wfAt]
+
+/-! ### 6. the rendered dump is a function of the observation -/
+
+theorem head_obs (e : Emitter) : e.obs.head = e.head := by
+  cases e with | mk k _ _ _ _ _ _ _ _ _ _ _ _ _ _ _ _ _ _ _ _ _ _ => cases k <;> rfl
+
+theorem view_obs (e : Emitter) : e.obs.view = e.view := by
+  cases e with | mk k _ _ _ _ _ _ _ _ _ _ _ _ _ _ _ _ _ _ _ _ _ _ => cases k <;> rfl
+
+theorem renderEmitter_obs (i : Nat) (e : Emitter) : renderEmitter i e.obs = renderEmitter i e := by
+  unfold renderEmitter; rw [head_obs, view_obs]
+
+theorem enum_map (f : Emitter → Emitter) (l : List Emitter) : enum (l.map f) = (enum l).map (fun p => (p.1, f p.2)) := by
+  simp [enum, List.zip_map_right]
+
+theorem joinMap_map {α β : Type} (l : List α) (g : α → β) (f : β → String) : joinMap (l.map g) f = joinMap l (fun a => f (g a)) := by
+  simp [joinMap, List.foldl_map]
+
+theorem dumpHolder_obs (h : Holder) : dumpHolder h.obs = dumpHolder h := by
+  unfold dumpHolder
+  show dumpH h.arch h.secs h.labels h.relocs h.unres h.attached = _
+  rfl
+
+theorem dumpEmitters_obs (es : List Emitter) : dumpEmitters (es.map Emitter.obs) = dumpEmitters es := by
+  simp only [dumpEmitters, enum_map, joinMap_map, renderEmitter_obs]
+
+/-- **the `code|` part of a dump - sections with names and bytes, labels with fixups, relocations, counters, attachment
+    list, emitter state - is computed from the observation alone** … -/
+theorem dumpCode_obs (w : World) : dumpCode w.obs = dumpCode w := by
+  unfold dumpCode
+  show dumpHolder w.h.obs ++ dumpEmitters (w.es.map Emitter.obs) = _
+  rw [dumpHolder_obs, dumpEmitters_obs]
+
+/-- … so indistinguishable worlds print the same dump, character for character -/
+theorem dumpCode_of_sim {a b : World} (h : Sim a b) : dumpCode a = dumpCode b := by
+  rw [← dumpCode_obs a, ← dumpCode_obs b, h]
+
+/-- **byte for byte**: the dump taken after any program that follows any (well-formed) history and a reset is the dump
+    the same program gives on fresh objects -/
+theorem dump_after_any_history (h p : List Op) (hard : Bool) (hwf : WFHist World.fresh h) :
+    ∃ fam, dumpCode (((World.fresh.run h).reset hard).run p) = dumpCode ((freshOf fam).run p) := by
+  obtain ⟨fam, _, _, hs⟩ := no_residue_after_any_history h p hard hwf
+  exact ⟨fam, dumpCode_of_sim hs⟩
+
 /-- logging / validation switched at any point of any program never changes what the rest of the program produces -/
 theorem logging_never_reaches_output (w : World) (on : Bool) (i : Nat) (p : List Op) :
     (w.step (.hlogger on)).1.trace p = w.trace p ∧ (w.step (.elogger i on)).1.trace p = w.trace p ∧
@@ -419,6 +533,20 @@ example : Sim (World.fresh.run (sampleHistory ++ [.reinit])) (World.fresh.run [.
 example : ¬ Sim (World.fresh.run [.init .x64, .attach 0, .raw 0 [144]]) (World.fresh.run [.init .x64, .attach 0]) := by decide
 example : ¬ Sim (World.fresh.run [.init .x64, .attach 0, .opt 0 optShort]) (World.fresh.run [.init .x64, .attach 0]) := by decide
 example : ¬ Sim (World.fresh.run [.init .x64, .attach 3, .jann 3]) (World.fresh.run [.init .x64, .attach 3]) := by decide
+
+-- … and the sample histories (which do use the setters, on attached emitters) are well formed: decide it
+instance (w : World) (op : Op) : Decidable (op.wfAt w) := by
+  cases op <;> simp only [Op.wfAt] <;> infer_instance
+instance : ∀ (h : List Op) (w : World), Decidable (WFHist w h)
+  | [], _ => isTrue trivial
+  | op :: r, w => by
+    simp only [WFHist]
+    have := instDecidableWFHist r (w.step op).1
+    infer_instance
+example : WFHist World.fresh sampleHistory := by decide
+-- the condition excludes exactly this: an option set on a detached emitter survives attach (on_attach does not clear it)
+example : ¬ WFHist World.fresh [.opt 0 optShort, .init .x64, .reset false] := by decide
+example : ¬ Sim ((World.fresh.run [.opt 0 optShort, .init .x64]).reset false) World.fresh := by decide
 
 -- AArch64 emitters: a history with b-fixups, a relocation, Builder nodes, then reset / reinit
 def sampleHistoryA64 : List Op :=
